@@ -449,20 +449,48 @@ class ProgGen:
             nb, ns = self.fresh("n"), self.fresh("s")
             self.ro.update([nb, ns])
             out.append(pad + f"{nb} = min(max({self.choice(['d1.Setting', 'd0.On + 2', '3'])}, 0), 4)")
-            if self.chance(40):
+            if self.chance(30):
+                # a negative constant step that reaches the loop header through a name (or a constant list element)
+                self.features.add("for-range-named-negative-step")
+                out.append(pad + f"{ns} = {self.choice(['-1', '-2', '[2, -1][1]', '0 - 1'])}")
+                rng, bound = f"{nb}, 0, {ns}", 5
+            elif self.chance(40):
                 out.append(pad + f"{ns} = {self.choice(['1', '2', 'd2.On * 0 + 1'])}")
                 rng, bound = f"0, {nb}, {ns}", 5
             else:
                 rng, bound = nb, 5
             self.intvar_bound[i] = bound
+        static_first = {"3": 0, "1, 4": 1, "0, 6, 2": 0, "5, 0, -2": 5, "2": 0, "4": 0, "0, 3, 1": 0, "2, 5": 2}.get(rng)
         out.append(pad + f"for {i} in range({rng}):")
+        cap = None
+        if static_first is not None and self.chance(30):
+            cap = self.loop_capture(out, pad, vars_ + [i], f"{i} == {static_first}")
         if self.cfg.lists and self.intvar_bound[i] <= 5 and self.chance(20):
             # table lookup with every index the loop produces
             self.features.add("list-scan")
             ln = self.n(self.intvar_bound[i], 5)
             out.append(pad + f"    {self.choice(WRITES)} = [{self.list_items(ln)}][{i}]" + (f" + {self.atom(vars_)}" if self.chance(30) else ""))
         out += self.block(vars_ + [i], ind + 1, depth + 1, in_func, in_loop=True)
+        if cap:
+            out.append(pad + f"{self.choice(WRITES)} = {cap} + {self.atom(vars_)}")
         return out
+
+    def loop_capture(self, out, pad, vars_, first_test):
+        """a variable that exists only because the loop body assigns it - on the first iteration only (the loop
+        is known to run at least once), or on every iteration - and that is read after the loop; a statement that
+        needs temporaries stands in front of the assignment"""
+        cap = self.fresh("cap")
+        self.ro.add(cap)
+        self.features.add("loop-capture")
+        # (device reads keep both statements out of the constant folder's reach)
+        out.append(pad + "    " + f"{self.choice(WRITES)} = {self.read()} * 2 + {self.expr(vars_)}")
+        if self.chance(70):
+            self.features.add("loop-capture-first-iteration-only")
+            out.append(pad + f"    if {first_test}:")
+            out.append(pad + f"        {cap} = {self.read()} + {self.expr(vars_)}")
+        else:
+            out.append(pad + f"    {cap} = {self.read()} + {self.expr(vars_)}")
+        return cap
 
     def while_counter(self, vars_, ind, depth, in_func):
         pad = "    " * ind
@@ -470,7 +498,10 @@ class ProgGen:
         self.features.add("while-counter")
         out = [pad + f"{c} = 0", pad + f"while {c} < {self.choice(['2', '3', '4'])}:", pad + f"    {c} += 1"]
         self.ro.add(c)  # only the loop header code writes it
+        cap = self.loop_capture(out, pad, vars_ + [c], f"{c} == 1") if self.chance(30) else None
         out += self.block(vars_ + [c], ind + 1, depth + 1, in_func, in_loop=True)
+        if cap:
+            out.append(pad + f"{self.choice(WRITES)} = {cap} + {self.atom(vars_)}")
         return out
 
     def while_read(self, vars_, ind, depth, in_func):
